@@ -74,6 +74,44 @@ func genSessionOps(rng *rand.Rand, c *Case, timeout, ooo int64, keys []string, l
 			}
 			continue
 		}
+		if late && rng.Intn(12) == 0 {
+			// two sessions of ONE key fired one after the other, both still inside the allowance when it is long enough;
+			// then late rows for the older and for the newer of the two
+			k := hx(keys[rng.Intn(len(keys))])
+			t1 := clock + 2*timeout
+			put := func(ts int64) {
+				c.Ops = append(c.Ops, []string{"add", strconv.Itoa(nextID), itoa(ts), k})
+				nextID++
+			}
+			if rng.Intn(2) == 0 {
+				// a ladder: each row fires the session before it, so the key's own map key is free again when the next
+				// session starts and is reused by a later fired session while the earlier ones are still open for late rows
+				steps := 3 + rng.Intn(2)
+				for j := 0; j < steps; j++ {
+					put(t1 + int64(j)*(2*timeout+ooo))
+					c.Ops = append(c.Ops, []string{"drain"})
+				}
+				clock = t1 + int64(steps-1)*(2*timeout+ooo)
+				for j := 0; j < steps-1; j++ {
+					if rng.Intn(3) > 0 {
+						put(t1 + int64(j)*(2*timeout+ooo) + rng.Int63n(timeout))
+					}
+				}
+				c.Stat = append(c.Stat, "late-rows-after-map-key-reuse")
+				continue
+			}
+			put(t1)
+			put(t1 + 2*timeout)
+			clock = t1 + 4*timeout + ooo
+			put(clock)
+			c.Ops = append(c.Ops, []string{"drain"})
+			put(t1 + rng.Int63n(timeout))
+			if rng.Intn(2) == 0 {
+				put(t1 + 2*timeout + rng.Int63n(timeout))
+			}
+			c.Stat = append(c.Stat, "late-row-of-older-fired-session")
+			continue
+		}
 		switch r := rng.Intn(100); {
 		case r < 64:
 			c.Ops = append(c.Ops, addOp(itoa(mkTs())))
